@@ -4,6 +4,8 @@ import (
 	"encoding/json"
 	"fmt"
 	"math/rand"
+	"strings"
+	"sync"
 	"time"
 
 	"github.com/yandex/mysync/internal/config"
@@ -27,7 +29,7 @@ type c02Spec struct {
 }
 
 var c02Faults = []string{
-	"master_crash", "master_isolate_all", "master_zk_loss", "master_isolate_peers", "master_isolate_keep_clients",
+	"master_crash", "master_isolate_all", "master_zk_loss", "master_isolate_peers", "master_isolate_keep_clients", "master_isolation_heals_as_failover_starts",
 	"replica_crash", "replica_isolate_all",
 	"mysync_kill_master_host", "mysync_kill_manager_host", "mysync_kill_replica_host",
 	"zk_loss_replica", "zk_outage_all",
@@ -47,7 +49,7 @@ func c02Gen(seed int64, idx int) c02Spec {
 	sp.MFirst = r.Intn(2) == 0
 	sp.OffsetMs = r.Intn(5000) // across the tick / health-check cycle
 	sp.DurationS = []float64{2, 8, 20, 45, 120}[r.Intn(5)]
-	sp.SlowApply = r.Intn(3) == 0
+	sp.SlowApply = r.Intn(3) == 0 || sp.Fault == "master_isolation_heals_as_failover_starts"
 	return sp
 }
 
@@ -145,6 +147,37 @@ func c02Run(u *Unit) {
 			s.W.Cut("client", master, false)
 			s.CutZK(master, true)
 			heal = func() { s.W.Isolate(master, false); s.CutZK(master, false) }
+		case "master_isolation_heals_as_failover_starts":
+			// like the previous one, but the isolation ends at the very moment a manager begins to execute the failover:
+			// what it observed at the start of its iteration (master unreachable) is stale while it acts
+			target = master
+			s.W.Isolate(master, true)
+			s.W.Cut("client", master, false)
+			s.CutZK(master, true)
+			// every statement a daemon sends to another host takes 100 ms: the procedure lasts seconds, as it does on a
+			// real network, and replication moves meanwhile
+			s.W.Lock()
+			s.W.Fault = func(c *world.StmtCtx) world.FaultAction {
+				if strings.HasPrefix(c.Caller, "mysync_") && c.Caller != "mysync_"+c.Host && c.Class != "conn_init" {
+					return world.FaultAction{Kind: "delay", Delay: 100 * time.Millisecond}
+				}
+				return world.FaultAction{}
+			}
+			s.W.Unlock()
+			var once sync.Once
+			s.OnDCS(func(inst, method, path, arg, res string) {
+				if method == "Set" && path == "switch" && strings.Contains(arg, `"started_by":"`) && !strings.Contains(arg, `"started_by":""`) {
+					once.Do(func() {
+						s.W.Isolate(master, false)
+						s.CutZK(master, false)
+						sc.Cover("healed-as-failover-started")
+					})
+				}
+			})
+			heal = func() { s.W.Isolate(master, false); s.CutZK(master, false) }
+			if dur < 60*time.Second {
+				dur = 60 * time.Second
+			}
 		case "master_isolate_peers":
 			target = master
 			s.W.Isolate(master, true)
@@ -253,5 +286,5 @@ func init() {
 			}
 			return f
 		},
-		Rule: "scenario i = fault kind i mod 15 with seeded cluster shape (2-4 HA, cascade, wait count, failover, adjust order), injection offset over the tick cycle, replicas that apply slower than the clients write (a third of the scenarios) and duration in {2,8,20,45,120}s; converge, inject, heal, quiesce; non-trivial = the fault was injected into a converged cluster and the run reached a verdict; distinct by (fault, n, cascade, w, failover, order, duration, master changed)"})
+		Rule: "scenario i = fault kind i mod 16 with seeded cluster shape (2-4 HA, cascade, wait count, failover, adjust order), injection offset over the tick cycle, replicas that apply slower than the clients write (a third of the scenarios) and duration in {2,8,20,45,120}s; converge, inject, heal, quiesce; non-trivial = the fault was injected into a converged cluster and the run reached a verdict; distinct by (fault, n, cascade, w, failover, order, duration, master changed)"})
 }
